@@ -405,6 +405,8 @@ def wrap_case_for(seed, i, tier):
         "config": r.below(len(CONFIGS)),
         "hash_seed": 1 + r.below(1 << 20),
         "plan_seeds": [r.below(1 << 30) for _ in range(3 if tier == "quick" else 6)],
+        # the first program of every case runs under ASan+UBSan in the thorough tier, of every tenth case in the quick tier
+        "sanitize": tier != "quick" or i % 10 == 0,
     }
 
 
@@ -438,13 +440,17 @@ def eval_wrap_case(case, keep_dir=None):
             site = "group traits sharing a method name" if (m["kind"] == "group" and shared) else "%s %s" % (m["kind"], m["name"])
             findings.append({"class": "wrap.no_wrapper", "site": site, "msg": "no wrapper of the processed header invokes entry `%s` of `%s` of %s %s" % (m["entry"], m["field"], m["kind"], m["name"])})
         plans = case.get("plans") or [wrapsim.gen_plan(model, ps) for ps in case["plan_seeds"]]
+        logs = hashlib.sha256()
         for pi, plan in enumerate(plans):
-            x = wrapsim.run_driver(d, model, config, plan, r["out_path"], tag=str(pi))
+            san = bool(case.get("sanitize")) and pi == 0
+            x = wrapsim.run_driver(d, model, config, plan, r["out_path"], tag=str(pi), sanitize=san)
             stats["programs"] += 1
+            stats["programs_sanitized"] = stats.get("programs_sanitized", 0) + (1 if san else 0)
             stats["slot_calls"] += x.get("slots", 0)
+            logs.update(x.get("log", "").encode())
             if x["violation"]:
                 return {"violation": x["violation"], "findings": findings, "stats": stats, "plan_index": pi}
-        return {"violation": None, "findings": findings, "stats": stats, "digest": hashlib.sha256(r["output"]).hexdigest()}
+        return {"violation": None, "findings": findings, "stats": stats, "digest": hashlib.sha256(r["output"]).hexdigest(), "log_digest": logs.hexdigest()}
     finally:
         if keep_dir is None:
             shutil.rmtree(d, ignore_errors=True)
@@ -553,7 +559,7 @@ def phase_wrappers(prop, tier, seed, report):
     report["distinct_nontrivial"] += len(digests) * (3 if tier == "quick" else 6)
     report["jobs"].append({
         "engine": "wrapsim", "binary": "cglue-bindgen (release, built from /repo); generated wrappers compiled with cc -std=c99 and executed", "header_models": n,
-        "c_programs_run": programs, "vtable_entry_invocations_through_wrappers": stats.get("slot_calls", 0), "wall_s": round(wall, 2),
+        "c_programs_run": programs, "of_which_under_asan_ubsan": stats.get("programs_sanitized", 0), "vtable_entry_invocations_through_wrappers": stats.get("slot_calls", 0), "wall_s": round(wall, 2),
         "runs_per_hour": int(programs / wall * 3600) if wall > 0 else 0, "distinct_processed_headers": len(digests),
         "distinct_model_shapes (traits, groups, contexts, no-context objects, config)": len(shapes),
         "faults_fired": {"hash_seed": stats.get("fault.hash_seed", 0)},
@@ -579,6 +585,27 @@ def phase_wrappers(prop, tier, seed, report):
             f.write("\n")
         out.append({"replay": path, "class": fv["class"], "msg": fv["msg"]})
     return out
+
+
+def selftest_wrappers(n=120):
+    """Determinism of the C17 runs: the same cases evaluated twice, at two worker counts, in fresh
+    directories, give the same processed header and the same program logs."""
+    build_shim()
+    build_bindgen()
+    cases = [wrap_case_for(1, i, "quick") for i in range(n)]
+    ref = None
+    bad = 0
+    for workers in (1, 16, 16):
+        with ThreadPoolExecutor(max_workers=workers) as ex:
+            rs = list(ex.map(eval_wrap_case, cases))
+        sig = [(r.get("digest"), r.get("log_digest"), (r["violation"] or {}).get("class")) for r in rs]
+        if ref is None:
+            ref = sig
+        elif sig != ref:
+            bad += 1
+            log("NONDETERMINISM engine=wrapsim workers=%d differing cases=%s" % (workers, [i for i in range(n) if sig[i] != ref[i]][:10]))
+    log("# determinism wrapsim: %d cases x 3 executions %s" % (n, "DIFFER" if bad else "identical"))
+    return bad
 
 
 def replay_wrappers(prop, doc, path):
